@@ -21,6 +21,7 @@ import (
 	"github.com/lni/dragonboat/v4/internal/raft"
 	"github.com/lni/dragonboat/v4/internal/registry"
 	"github.com/lni/dragonboat/v4/internal/rsm"
+	"github.com/lni/dragonboat/v4/internal/server"
 	"github.com/lni/dragonboat/v4/internal/settings"
 	"github.com/lni/dragonboat/v4/internal/verifkit"
 	"github.com/lni/dragonboat/v4/internal/verifkit/memlogdb"
@@ -60,6 +61,10 @@ func (s *nxSM) Lookup(q interface{}) (interface{}, error) {
 	return s.val, nil
 }
 func (s *nxSM) SaveSnapshot(w io.Writer, _ sm.ISnapshotFileCollection, _ <-chan struct{}) error {
+	if s.closed {
+		s.h.c.fail("C11: SaveSnapshot called after Close on replica %d", s.h.id)
+	}
+	s.h.c.snapshotsSaved++
 	var b [24]byte
 	binary.BigEndian.PutUint64(b[:], s.val)
 	binary.BigEndian.PutUint64(b[8:], s.version)
@@ -68,6 +73,9 @@ func (s *nxSM) SaveSnapshot(w io.Writer, _ sm.ISnapshotFileCollection, _ <-chan 
 	return err
 }
 func (s *nxSM) RecoverFromSnapshot(r io.Reader, _ []sm.SnapshotFile, _ <-chan struct{}) error {
+	if s.closed {
+		s.h.c.fail("C11: RecoverFromSnapshot called after Close on replica %d", s.h.id)
+	}
 	var b [24]byte
 	if _, err := io.ReadFull(r, b[:]); err != nil {
 		return err
@@ -75,9 +83,19 @@ func (s *nxSM) RecoverFromSnapshot(r io.Reader, _ []sm.SnapshotFile, _ <-chan st
 	s.val = binary.BigEndian.Uint64(b[:])
 	s.version = binary.BigEndian.Uint64(b[8:])
 	s.lastIdx = binary.BigEndian.Uint64(b[16:])
+	s.h.recoveredIdx = s.lastIdx
+	if s.lastIdx > s.h.lastUpdIdx {
+		s.h.lastUpdIdx = s.lastIdx
+	}
 	return nil
 }
-func (s *nxSM) Close() error { s.closed = true; return nil }
+func (s *nxSM) Close() error {
+	if s.closed {
+		s.h.c.fail("C11: Close called twice on replica %d", s.h.id)
+	}
+	s.closed = true
+	return nil
+}
 
 // ---------------------------------------------------------------- pipeline + log store recorder
 
@@ -133,10 +151,15 @@ type nxHost struct {
 	crashAt int
 	hooks   []string
 	// monitors
-	stoppedAt   int
-	maxTermSent uint64
-	lastUpdIdx  uint64
-	seenUpdates map[uint64]string // index -> cmd of user updates in this incarnation
+	stoppedAt    int
+	recoveredIdx uint64 // index of the snapshot the user SM was recovered from
+	ps           *nxPoolState
+	registered   bool
+	cci          uint64
+	poolCCI      bool
+	maxTermSent  uint64
+	lastUpdIdx   uint64
+	seenUpdates  map[uint64]string // index -> cmd of user updates in this incarnation
 }
 
 func (h *nxHost) hook(name string) {
@@ -182,12 +205,18 @@ type nxCfg struct {
 	Prefix       []string
 	Script       []string
 	// budgets for deviations
-	Timeouts, Ticks, Crashes, Drops, Dups, Reorders, Writes, Reads, LazyApplies, Heartbeats, Transfers, Stops int
-	Horizon                                                                                                   int
+	Timeouts, Ticks, Crashes, Drops, Dups, Reorders, Writes, Reads, LazyApplies, Heartbeats, Transfers, Stops, Partitions int
+	Horizon                                                                                                               int
 	// RequireComplete: at the end of the scenario (no default event left) every
 	// client operation of the script must have completed (bounded liveness; use
 	// only with benign deviations)
 	RequireComplete bool
+	// RealPool: the real snapshot worker pool, node loaders, reference counting
+	// and close worker are used (see nodex_pool_test.go); SnapshotEntries makes
+	// the node request snapshots by itself
+	RealPool        bool
+	SnapshotEntries uint64
+	HoldJobs        int // deviation budget: hold back a scheduled snapshot job
 	// RealTime: raft's tick counters are not normalised; Tick events advance
 	// real election/heartbeat timers (deterministic, distinct election timeouts)
 	RealTime bool
@@ -208,18 +237,20 @@ type nxCluster struct {
 	clock       int
 	ops         []*nxOp
 	devs        int
+	partition   uint32 // bitmask of hosts in group A; 0 = no partition
 	spos        int
 	lazy        map[uint64]bool // hosts whose apply worker is being held back (deviation)
-	used        struct{ timeouts, ticks, crashes, drops, dups, reorders, writes, reads, lazy, heartbeats, transfers, stops int }
+	used        struct{ timeouts, ticks, crashes, drops, dups, reorders, writes, reads, lazy, heartbeats, transfers, stops, partitions, holdJobs int }
 	recordHooks bool
 	pool        *sync.Pool
 	// monitors
-	leaderOf   map[uint64]uint64
-	voteOf     map[[2]uint64]uint64
-	applied    map[uint64]string // index -> cmd first applied anywhere
-	completedW map[uint64]bool   // value -> write reported Completed
-	nextVal    uint64
-	linCheck   func(c *nxCluster) string
+	leaderOf       map[uint64]uint64
+	voteOf         map[[2]uint64]uint64
+	applied        map[uint64]string // index -> cmd first applied anywhere
+	completedW     map[uint64]bool   // value -> write reported Completed
+	nextVal        uint64
+	linCheck       func(c *nxCluster) string
+	snapshotsSaved int
 }
 
 func (c *nxCluster) fail(format string, a ...interface{}) {
@@ -262,6 +293,7 @@ func (c *nxCluster) startHost(h *nxHost) {
 	h.usm = &nxSM{h: h}
 	h.seenUpdates = map[uint64]string{}
 	h.lastUpdIdx = 0
+	h.recoveredIdx = 0
 	h.crashAt, h.hookN = 0, 0
 	ldb := &nxLogDB{DB: h.db, h: h}
 	snapdir := fmt.Sprintf("/snap-%d", h.id)
@@ -273,7 +305,8 @@ func (c *nxCluster) startHost(h *nxHost) {
 	ss := newSnapshotter(nxShard, h.id, rootDirFunc, ldb, lr, h.fs)
 	lr.SetCompactor(ss)
 	cfg := config.Config{ReplicaID: h.id, ShardID: nxShard, ElectionRTT: 10, HeartbeatRTT: 2,
-		CheckQuorum: c.cfg.CheckQuorum, PreVote: c.cfg.PreVote, Quiesce: c.cfg.Quiesce}
+		CheckQuorum: c.cfg.CheckQuorum, PreVote: c.cfg.PreVote, Quiesce: c.cfg.Quiesce,
+		SnapshotEntries: c.cfg.SnapshotEntries, CompactionOverhead: 1000}
 	usm := h.usm
 	create := func(shardID uint64, replicaID uint64, done <-chan struct{}) rsm.IManagedStateMachine {
 		return rsm.NewNativeSM(cfg, rsm.NewInMemStateMachine(usm), done)
@@ -294,6 +327,15 @@ func (c *nxCluster) startHost(h *nxHost) {
 	h.eng = &engine{logdb: ldb, stepWorkReady: newWorkReady(1), commitWorkReady: newWorkReady(1),
 		applyWorkReady: newWorkReady(1), notifyCommit: c.cfg.NotifyCommit}
 	h.up = true
+	h.ps = nil
+	if c.cfg.RealPool {
+		c.initPool(h)
+		h.pipe.step, h.pipe.apply = true, true
+		c.settle(h)
+		c.settle(h)
+		c.normalize(h)
+		return
+	}
 	n.loaded()
 	// the apply worker initialises the node (initial Recover task)
 	c.applyWorker(h)
@@ -307,6 +349,10 @@ func (c *nxCluster) startHost(h *nxHost) {
 // ---------------------------------------------------------------- worker loop bodies (REAL code)
 
 func (c *nxCluster) stepWorker(h *nxHost) {
+	if h.ps != nil {
+		c.realStep(h)
+		return
+	}
 	h.pipe.step = false
 	nodes := map[uint64]*node{nxShard: h.node}
 	active := map[uint64]struct{}{nxShard: {}}
@@ -388,6 +434,27 @@ func (c *nxCluster) snapshotWorker(h *nxHost) {
 // settle runs every ready worker other than the held-back ones until quiet.
 func (c *nxCluster) settle(h *nxHost) {
 	defer c.flush(h)
+	if h.ps != nil {
+		for i := 0; i < 80 && c.viol == "" && !h.ps.destroyed; i++ {
+			switch {
+			case h.pipe.closeReady:
+				c.closeWorker(h)
+			case h.pipe.commit:
+				c.realCommit(h)
+			case h.pipe.apply && !c.lazy[h.id]:
+				c.realApply(h)
+			case h.pipe.save || h.pipe.recover || h.poolCCI:
+				c.poolLoop(h)
+			case c.jobScheduled(h) && !h.ps.held:
+				c.poolRun(h)
+			case h.pipe.step:
+				c.realStep(h)
+			default:
+				return
+			}
+		}
+		return
+	}
 	for i := 0; i < 50 && c.viol == "" && h.up; i++ {
 		switch {
 		case h.pipe.commit:
@@ -417,9 +484,29 @@ func (c *nxCluster) onSend(h *nxHost, m pb.Message) {
 	h.outbox = append(h.outbox, m)
 }
 
+func (c *nxCluster) crosses(m pb.Message) bool {
+	if c.partition == 0 {
+		return false
+	}
+	side := func(id uint64) int {
+		if id == 0 || id > uint64(len(c.hosts)) {
+			return 0
+		}
+		if c.partition&(1<<uint(id-1)) != 0 {
+			return 1
+		}
+		return 2
+	}
+	a, b := side(m.From), side(m.To)
+	return a != 0 && b != 0 && a != b
+}
+
 func (c *nxCluster) flush(h *nxHost) {
 	sort.SliceStable(h.outbox, func(i, j int) bool { return h.outbox[i].To < h.outbox[j].To })
 	for _, m := range h.outbox {
+		if c.crosses(m) {
+			continue // lost in the partition
+		}
 		c.seq++
 		c.msgs = append(c.msgs, nxMsg{m: m, seq: c.seq})
 	}
@@ -452,12 +539,67 @@ func (c *nxCluster) deliver(m pb.Message, crashAt int) {
 	if !ok || !h.up {
 		return
 	}
+	if m.Type == pb.InstallSnapshot && !m.Snapshot.Witness {
+		if !c.transferSnapshot(h, &m) {
+			return
+		}
+	}
 	c.guarded(h, crashAt, func() {
 		if added, stopped := h.node.mq.Add(m); !added || stopped {
 			return
 		}
 		c.stepWorker(h)
 	})
+}
+
+// transferSnapshot stands for the chunk transfer of an InstallSnapshot message
+// (C15's subject): the sender's snapshot file is copied into a receiving temp
+// directory of the target's own file system and finalized with the real
+// server.SSEnv (flag file + rename), as transport.Chunk does on the last chunk.
+func (c *nxCluster) transferSnapshot(dst *nxHost, m *pb.Message) bool {
+	src, ok := c.byID[m.From]
+	if !ok {
+		return false
+	}
+	data, err := nxReadFile(src.fs, m.Snapshot.Filepath)
+	if err != nil {
+		return false // the image is gone on the sender: the transfer fails
+	}
+	snapdir := fmt.Sprintf("/snap-%d", dst.id)
+	env := server.NewSSEnv(func(uint64, uint64) string { return snapdir }, nxShard, dst.id, m.Snapshot.Index, m.From,
+		server.ReceivingMode, dst.fs)
+	env.MustRemoveTempDir()
+	if err := env.CreateTempDir(); err != nil {
+		panic(err)
+	}
+	f, err := dst.fs.Create(env.GetTempFilepath())
+	if err != nil {
+		panic(err)
+	}
+	if _, err := f.Write(data); err != nil {
+		panic(err)
+	}
+	if err := f.Sync(); err != nil {
+		panic(err)
+	}
+	if err := f.Close(); err != nil {
+		panic(err)
+	}
+	m.Snapshot.Filepath = env.GetFilepath()
+	if err := env.FinalizeSnapshot(&m.Snapshot); err != nil {
+		env.MustRemoveTempDir()
+		return false
+	}
+	return true
+}
+
+func nxReadFile(fs vfs.IFS, path string) ([]byte, error) {
+	f, err := fs.Open(path)
+	if err != nil {
+		return nil, err
+	}
+	defer f.Close()
+	return io.ReadAll(f)
 }
 
 // guarded runs f on host h with crash injection armed at hook crashAt.
@@ -525,6 +667,10 @@ const (
 	nxStop
 	nxWriteShort
 	nxReadShort
+	nxPartition
+	nxHeal
+	nxHoldJob
+	nxReleaseJob
 )
 
 func nxev(kind int, a, b uint32) uint32 { return uint32(kind)<<24 | a<<12 | b }
@@ -537,7 +683,7 @@ func (c *nxCluster) describe(e uint32) string {
 	names := map[int]string{nxDeliver: "Deliver", nxDrop: "Drop", nxDup: "DupDeliver", nxTimeout: "ElectionTimeout", nxHeartbeat: "HeartbeatTimeout",
 		nxTick: "Tick", nxWrite: "Write@", nxRead: "ReadIndex@", nxLookup: "Lookup(op)", nxCrash: "CrashRestart", nxCrashIn: "CrashInDelivery",
 		nxHoldApply: "HoldApplyWorker", nxReleaseApply: "ReleaseApplyWorker", nxTransfer: "LeaderTransfer", nxStop: "StopShard",
-		nxWriteShort: "WriteShortTimeout@", nxReadShort: "ReadIndexShortTimeout@"}
+		nxWriteShort: "WriteShortTimeout@", nxReadShort: "ReadIndexShortTimeout@", nxPartition: "Partition(groupA mask)", nxHeal: "HealPartition", nxHoldJob: "HoldSnapshotJobs", nxReleaseJob: "ReleaseSnapshotJob"}
 	return fmt.Sprintf("%s(%d,%d)", names[k], a, b)
 }
 
@@ -597,7 +743,7 @@ func (c *nxCluster) runPrefix() {
 		}
 	}
 	c.cfg = saved
-	c.used = struct{ timeouts, ticks, crashes, drops, dups, reorders, writes, reads, lazy, heartbeats, transfers, stops int }{}
+	c.used = struct{ timeouts, ticks, crashes, drops, dups, reorders, writes, reads, lazy, heartbeats, transfers, stops, partitions, holdJobs int }{}
 	c.devs, c.spos = 0, 0
 }
 
@@ -621,6 +767,11 @@ func (c *nxCluster) defaultEvent() (uint32, bool) {
 	for _, h := range c.hosts {
 		if c.lazy[h.id] {
 			return nxev(nxReleaseApply, uint32(h.id), 0), true
+		}
+	}
+	for _, h := range c.hosts {
+		if h.ps != nil && h.ps.held && c.jobScheduled(h) && c.spos >= len(c.cfg.Script) {
+			return nxev(nxReleaseJob, uint32(h.id), 0), true
 		}
 	}
 	if c.spos < len(c.cfg.Script) {
@@ -668,6 +819,16 @@ func (c *nxCluster) Enabled() []uint32 {
 			}
 		}
 	}
+	if c.used.partitions < cfg.Partitions {
+		if c.partition != 0 {
+			add(nxev(nxHeal, 0, 0))
+		} else {
+			n := uint(len(c.hosts))
+			for m := uint32(0); m < 1<<(n-1)-1; m++ {
+				add(nxev(nxPartition, m|1<<(n-1), 0))
+			}
+		}
+	}
 	for _, h := range c.hosts {
 		if !h.up {
 			continue
@@ -700,6 +861,9 @@ func (c *nxCluster) Enabled() []uint32 {
 		}
 		if c.used.stops < cfg.Stops {
 			add(nxev(nxStop, id, 0))
+		}
+		if h.ps != nil && c.used.holdJobs < cfg.HoldJobs && !h.ps.held {
+			add(nxev(nxHoldJob, id, 0))
 		}
 		if c.used.transfers < cfg.Transfers && vp.IsLeader() {
 			for _, t := range c.hosts {
@@ -787,14 +951,45 @@ func (c *nxCluster) Step(e uint32) (msg string) {
 			h.node.mq.Add(pb.Message{Type: pb.LocalTick, To: h.id, From: h.id, Hint: tick})
 			c.stepWorker(h)
 		})
+	case nxHoldJob:
+		c.used.holdJobs++
+		c.byID[uint64(a)].ps.held = true
+	case nxReleaseJob:
+		h := c.byID[uint64(a)]
+		h.ps.held = false
+		if c.jobScheduled(h) {
+			// the worker goroutine has the job, it runs no matter what happened to the node
+			c.poolRun(h)
+		}
+		c.settle(h)
+	case nxPartition:
+		c.used.partitions++
+		c.partition = a
+		var keep []nxMsg
+		for _, it := range c.msgs {
+			if !c.crosses(it.m) {
+				keep = append(keep, it)
+			}
+		}
+		c.msgs = keep
+	case nxHeal:
+		c.used.partitions++
+		c.partition = 0
 	case nxStop:
 		h := c.byID[uint64(a)]
 		c.used.stops++
 		if h.up {
 			// NodeHost.stopNode: close the node (terminates every pending request)
-			h.node.close()
-			h.up = false
-			h.stoppedAt = c.clock
+			if h.ps != nil {
+				c.stopShard(h)
+				h.up = false
+				h.stoppedAt = c.clock
+				c.settle(h)
+			} else {
+				h.node.close()
+				h.up = false
+				h.stoppedAt = c.clock
+			}
 		}
 	case nxWrite, nxWriteShort:
 		h := c.byID[uint64(a)]
